@@ -57,6 +57,8 @@ def run(prog, world, sem, rep):
              "PARAMETERS; UpdateParams writes only PARAMETERS (owner guard: C10); neither emits messages", 5)
     rep.rule("C11.c", "every writer of PARAMETERS outside instantiate that can store paused != Some(true) does so only after the "
              "legacy wait list was read and observed empty (specialised over paused in {None, Some(false), Some(true)})", 4)
+    rep.rule("C11.f", "only a migration that found legacy entries can lift the pause: on the MigrateUnbondWaitList path PARAMETERS is written only "
+             "after a read of the legacy wait list was observed NOT empty (an empty list makes the migration a no-op for everyone but the owner)", 1)
     rep.rule("C11.e", "no function reachable from the hub query entry point reads Parameters.paused (positive control: execute does)", 2)
 
     ex = entry(prog, "hub")
@@ -137,6 +139,23 @@ def run(prog, world, sem, rep):
                    "PARAMETERS written with paused=%s without having observed the legacy wait list empty (path lines %s)" % (
                        pv, GuardAnalysis.path_lines(body, be.cfg.path(0, bb, removed=removed | pass_edges) or [])) if not ok
                    else "write only after the legacy wait list was observed empty", where(body, bb))
+
+    # C11.f
+    from ..callgraph import site_guarded
+    mvs = explore(sem, ex, variant_env(prog, ex, "MigrateUnbondWaitList"))
+    n = 0
+    for (vv, bb, kind, cell, key, val, e) in storage_effects(sem, mvs):
+        if cell == PARAMS and kind in ("write", "update"):
+            n += 1
+
+            def nonempty(f, resolve):
+                return f[0] == "truth" and f[2] is False and f[1].op == "call" and f[1].info == "std::vec::Vec::is_empty" and reads_cell(sem, resolve(f[1].args[0]), OLDWAIT)
+            g, d = site_guarded(sem, vv, bb, nonempty)
+            rep.ob("C11.f", "migration unpauses only after having found legacy entries (%s)" % vv.body.path, g,
+                   "the migration path can write PARAMETERS (unpause) although the legacy wait list was empty all along - any sender can then lift an emergency pause: %s" % d
+                   if not g else d, where(vv.body, bb), key="C11.f | %s" % vv.body.path)
+    if n == 0:
+        rep.ob("C11.f", "migration unpause", False, "anchor-lost: the migration path no longer writes PARAMETERS")
 
     # C11.e
     def paused_reads(root):
